@@ -511,6 +511,17 @@ def zero_length_variants(case, rnd):
             c['inject'] = {'pos': pos, 'line': '  ' + f}
             c['mutation'] = {'kind': 'zero-length', 'line': f}
             out.append(c)
+    # a program in which EVERY byte-producing statement has length zero (a reserve-only module), with every listing
+    # format and a stale image in place
+    for fmt in ('listing', 'hex', 'intel_hex', 'minhex'):
+        c = copy.deepcopy(case)
+        c['prog'] = ['zq_buf:', '  ' + ZERO_FORMS[rnd.randrange(len(ZERO_FORMS))], 'zq_end:']
+        c['includes'] = {}
+        c['opts'] = ['-p', '-t', fmt]
+        c['pre_image'] = OLD_IMAGE if rnd.random() < 0.5 else None
+        c['inject'] = {'pos': 1, 'line': '  ' + ZERO_FORMS[rnd.randrange(len(ZERO_FORMS))]}
+        c['mutation'] = {'kind': 'zero-length', 'line': 'whole program, -t ' + fmt}
+        out.append(c)
     return out
 
 
